@@ -388,7 +388,16 @@ func (bkt *Bucket) checkAndSet(ki *KeyInfo, v *Payload) error {
 			if Conf.CheckVHash {
 				if v.Ver != 0 && abs(v.Ver) > abs(oldv) {
 					// sync script would be here, e.g. set_raw(k, v, rev=xxx)
-					bkt.htree.set(ki, &v.Meta, pos)
+					// GC may have moved the record since the lookup above (it does not take
+					// the write lock): writing the old position back would point the tree at
+					// a file GC removes
+					for !bkt.htree.updateVer(ki, pos, v.Ver) {
+						if _, curPos, found := bkt.htree.get(ki); found {
+							pos = curPos
+						} else {
+							break
+						}
+					}
 				}
 				return nil
 			}
